@@ -73,6 +73,11 @@ P = {
   text="Lean theorems (Props/C14.lean): a state machine of the temp-file + rename protocol over an abstract POSIX directory with any number of writers, readers, crashes; invariant proved for every event list (every interleaving, every crash prefix): a key name only ever points to the complete bytes of a writer that renamed, reads return a miss or a complete entry, read_not_older (atomic-register order via a logical clock), crash leaves absent-or-complete, temp names never equal a hex key name (concrete hex encoding). Fact obligations pin WriteFile's call order, Set's temp dir = root, Get's single ReadFile. Correspondence: hook-stepped goroutine/child-process writers (all interleavings of 2 writers with reads at every position), SIGKILL at every hook point and mid-write, free-running stress as supporting evidence.",
   note="Partial: rename atomicity, unlink-while-open and page-cache persistence across SIGKILL are the kernel's; free-running schedules cannot be enumerated (the theorem covers them in the model, hooks cover step boundaries in the implementation); power loss is outside the property. Uses the verif-tagged VerifHook in internal/file.",
   tech="Lean 4 proof (invariant by induction over arbitrary event lists) + regenerated call skeletons + hook-stepped correspondence with crash injection"),
+ "C18": dict(
+  text="Lean theorems (Props/C18.lean) over a JSON AST with ordered objects and duplicates and a model of encoding/json's struct decoding (exact then case-insensitive field match, merge of repeated objects, null rules): envelope_path_sound / complete (a signature is returned iff format echo, envelope verifies, Notary payload type, no duplicate member names at any depth, decoded target = requested descriptor with every original annotation, exactly the key targetArtifact and only OCI descriptor keys), readers_see_requested (last-wins, first-wins and Go's struct decoder all read the same descriptor - unconditional after fix 95bb17e), raw_path_sound, never_panics for ALL payload ASTs, codec round trips over the regenerated tables; fact obligations on the order Unmarshal < findDuplicateKey < descriptor check < unknown-field scan and on the checked type assertion. Correspondence: a scripted SignPlugin signing ARBITRARY payload bytes with real keys (hand-assembled JWS, go-cose COSE), 36 payload mutation kinds, key id / key spec / chain / signature deviations, 6 key specs x 2 formats x Sign / SignBlob under recover.",
+  note="Cryptography abstracted to scenario flags (signature mode, chain kind) set by construction; notation-core-go's envelope verification is trusted; request well-formedness (distinct annotation keys, int64 size) is an explicit decidable hypothesis checked on every case.",
+  tech="Lean 4 proof (decision logic over all JSON ASTs, model of Go's JSON decoding) + regenerated codec tables and call-order facts + adversarial-plugin correspondence"),
+
  "C19": dict(
   text="Lean theorems (Props/C19.lean): an abstract content-addressed store with push / direct-manifest / direct-blob steps; by induction over histories of any length: list_exact (a non-refused listing yields exactly the signature manifests stored for exactly that subject, in order), isolation between subjects and from foreign referrers, independence of the predecessor index mode (exact vs digest-only), fetch_roundtrip (pushed bytes label and media type), annotations_superset, hostile_refused_before_use (0/2 layers, oversized declared sizes refused without reading the blob). Position-based fact obligations pin that size guards precede reads and which field the artifact type comes from. Correspondence: real on-disk OCI layouts (oras oci.Store + registry.NewRepository): push sequences over up to 3 subjects with foreign referrers and hostile manifests, listing and fetching everything after every step, digest-only predecessor wrapper, re-open from disk.",
   note="oras-go's content store, predecessor index and PackManifest are trusted; sha256 collision freedom via the wf hypothesis (pairwise distinct labels, checked per case). Remote registry branches and I/O failures are out of scope. Three oras-go observations are recorded in corpus/C19/README.md.",
